@@ -1,7 +1,915 @@
 /- Helper lemmas for the C10 bit-operation models (Mpir/Model/Bits.lean). -/
 import MpirProofs.Lemmas.Base
 import Mpir.Model.Bits
+import Mathlib.Data.Int.Bitwise
+import Mathlib.Tactic.Ring
+import Mathlib.Tactic.Linarith
+import Mathlib.Data.List.Induction
 namespace Mpir.Bits
 open Mpir
+
+/-! ## the Mathlib-free specification is Mathlib's -/
+
+theorem ldiff_eq (m n : Nat) : ldiff m n = Nat.ldiff m n := rfl
+theorem land_eq (x y : Int) : land x y = Int.land x y := by cases x <;> cases y <;> rfl
+theorem lor_eq (x y : Int) : lor x y = Int.lor x y := by cases x <;> cases y <;> rfl
+theorem lxor_eq (x y : Int) : lxor x y = Int.xor x y := by cases x <;> cases y <;> rfl
+theorem lnot_eq (x : Int) : lnot x = Int.lnot x := by cases x <;> rfl
+theorem lnot_eq' (x : Int) : lnot x = ~~~x := by cases x <;> rfl
+theorem testBit_eq (x : Int) (i : Nat) : testBit x i = Int.testBit x i := by cases x <;> rfl
+
+theorem B_pow (n : Nat) : B ^ n = 2 ^ (64 * n) := by unfold B; rw [← pow_mul]
+
+/-- generic split of a bitwise operation at a power of two -/
+theorem bitwise_split (f : Bool → Bool → Bool) (hf : f false false = false) (k x y p q : Nat)
+    (hx : x < 2 ^ k) (hy : y < 2 ^ k) :
+    Nat.bitwise f (x + 2 ^ k * p) (y + 2 ^ k * q) = Nat.bitwise f x y + 2 ^ k * Nat.bitwise f p q := by
+  have hpos : 0 < 2 ^ k := Nat.pos_of_ne_zero (by positivity)
+  have h1 : Nat.bitwise f (x + 2 ^ k * p) (y + 2 ^ k * q) % 2 ^ k = Nat.bitwise f x y := by
+    rw [Nat.bitwise_mod_two_pow hf, Nat.add_mul_mod_self_left, Nat.add_mul_mod_self_left,
+      Nat.mod_eq_of_lt hx, Nat.mod_eq_of_lt hy]
+  have h2 : Nat.bitwise f (x + 2 ^ k * p) (y + 2 ^ k * q) / 2 ^ k = Nat.bitwise f p q := by
+    rw [Nat.bitwise_div_two_pow hf, Nat.add_mul_div_left _ _ hpos, Nat.add_mul_div_left _ _ hpos,
+      Nat.div_eq_of_lt hx, Nat.div_eq_of_lt hy, Nat.zero_add, Nat.zero_add]
+  rw [← h1, ← h2, Nat.mod_add_div]
+
+/-! ## limb-wise operations and values -/
+/-- a limb operation `g` that agrees with `Nat.bitwise f` on limbs -/
+def LimbOp (g : Nat → Nat → Nat) (f : Bool → Bool → Bool) : Prop :=
+  f false false = false ∧ ∀ a b, a < B → b < B → g a b = Nat.bitwise f a b
+
+theorem zipWith_eqlen {g f} (h : LimbOp g f) : ∀ (u v : List Nat), u.length = v.length → Limbs u → Limbs v →
+    val (List.zipWith g u v) = Nat.bitwise f (val u) (val v) ∧ Limbs (List.zipWith g u v)
+  | [], [], _, _, _ => by simp [Limbs_nil]
+  | [], _ :: _, hl, _, _ => by simp at hl
+  | _ :: _, [], hl, _, _ => by simp at hl
+  | x :: xs, y :: ys, hl, hu, hv => by
+    have ⟨hx, hxs⟩ := Limbs_cons.mp hu
+    have ⟨hy, hys⟩ := Limbs_cons.mp hv
+    have ⟨ih1, ih2⟩ := zipWith_eqlen h xs ys (by simpa using hl) hxs hys
+    have hlt : Nat.bitwise f x y < B := by
+      unfold B at *; exact Nat.bitwise_lt_two_pow hx hy
+    constructor
+    · simp only [List.zipWith_cons_cons, val_cons, ih1, h.2 x y hx hy]
+      have := bitwise_split f h.1 64 x y (val xs) (val ys) (by unfold B at hx; exact hx) (by unfold B at hy; exact hy)
+      unfold B; rw [this]
+    · simp only [List.zipWith_cons_cons]
+      exact Limbs_cons.mpr ⟨by rw [h.2 x y hx hy]; exact hlt, ih2⟩
+
+theorem length_zipWith' (g : Nat → Nat → Nat) (u v : List Nat) :
+    (List.zipWith g u v).length = min u.length v.length := by simp
+
+theorem zipWith_take_min (g : Nat → Nat → Nat) (u v : List Nat) :
+    List.zipWith g u v = List.zipWith g (u.take (min u.length v.length)) (v.take (min u.length v.length)) := by
+  rw [← List.take_zipWith]; rw [List.take_of_length_le]; simp
+
+/-- any lengths: the bitwise function of the values splits into the limb-wise part and the part above the
+    shorter operand -/
+theorem zipWith_val {g f} (h : LimbOp g f) (u v : List Nat) (hu : Limbs u) (hv : Limbs v) :
+    Nat.bitwise f (val u) (val v) = val (List.zipWith g u v) +
+      B ^ (min u.length v.length) * Nat.bitwise f (val (u.drop v.length)) (val (v.drop u.length)) ∧
+    Limbs (List.zipWith g u v) := by
+  set n := min u.length v.length with hn
+  have hnu : n ≤ u.length := Nat.min_le_left _ _
+  have hnv : n ≤ v.length := Nat.min_le_right _ _
+  have e := zipWith_eqlen h (u.take n) (v.take n) (by simp [hnu, hnv])
+    (Limbs_take hu n) (Limbs_take hv n)
+  rw [← zipWith_take_min g u v] at e
+  refine ⟨?_, e.2⟩
+  have du : val (u.drop v.length) = val (u.drop n) := by
+    by_cases hc : u.length ≤ v.length
+    · have : n = u.length := by omega
+      rw [this, List.drop_of_length_le hc, List.drop_of_length_le (le_refl _)]
+    · have : n = v.length := by omega
+      rw [this]
+  have dv : val (v.drop u.length) = val (v.drop n) := by
+    by_cases hc : v.length ≤ u.length
+    · have : n = v.length := by omega
+      rw [this, List.drop_of_length_le hc, List.drop_of_length_le (le_refl _)]
+    · have : n = u.length := by omega
+      rw [this]
+  rw [du, dv, e.1]
+  conv_lhs => rw [val_take_drop u n hnu, val_take_drop v n hnv]
+  have l1 := val_lt _ (Limbs_take hu n); have l2 := val_lt _ (Limbs_take hv n)
+  rw [List.length_take, Nat.min_eq_left hnu] at l1
+  rw [List.length_take, Nat.min_eq_left hnv] at l2
+  rw [B_pow] at *
+  exact bitwise_split f h.1 (64 * n) _ _ _ _ l1 l2
+
+theorem limbop_and : ∀ a b : Nat, (a &&& b) = Nat.bitwise and a b := fun _ _ => rfl
+theorem limbop_or : ∀ a b : Nat, (a ||| b) = Nat.bitwise or a b := fun _ _ => rfl
+theorem limbop_xor : ∀ a b : Nat, (a ^^^ b) = Nat.bitwise bne a b := fun _ _ => rfl
+
+theorem testBit_lnotL (b : Nat) (hb : b < B) (i : Nat) : (lnotL b).testBit i = (decide (i < 64) && !b.testBit i) := by
+  unfold lnotL B
+  have : 2 ^ 64 - 1 - b = 2 ^ 64 - (b + 1) := by omega
+  rw [this]; exact Nat.testBit_two_pow_sub_succ (by unfold B at hb; exact hb) i
+
+theorem testBit_limb_high {a : Nat} (ha : a < B) {i : Nat} (hi : 64 ≤ i) : a.testBit i = false := by
+  apply Nat.testBit_lt_two_pow
+  calc a < 2 ^ 64 := by unfold B at ha; exact ha
+    _ ≤ 2 ^ i := Nat.pow_le_pow_right (by decide) hi
+
+theorem limbop_andn (a b : Nat) (ha : a < B) (hb : b < B) : a &&& lnotL b = ldiff a b := by
+  apply Nat.eq_of_testBit_eq; intro i
+  rw [Nat.testBit_and, testBit_lnotL b hb, ldiff, Nat.testBit_bitwise rfl]
+  by_cases hi : i < 64
+  · simp [hi]
+  · simp [hi, testBit_limb_high ha (by omega : 64 ≤ i)]
+
+theorem decr_val : ∀ (u : List Nat), Limbs u →
+    val (decr u).1 + 1 = val u + B ^ u.length * (decr u).2 ∧ (decr u).2 ≤ 1 ∧ Limbs (decr u).1 ∧
+    (decr u).1.length = u.length
+  | [], _ => by simp [decr, Limbs_nil]
+  | x :: xs, hu => by
+    have ⟨hx, hxs⟩ := Limbs_cons.mp hu
+    have ih := decr_val xs hxs
+    unfold decr
+    by_cases h0 : x < 1
+    · simp only [h0, if_true]
+      obtain ⟨i1, i2, i3, i4⟩ := ih
+      have hx0 : x = 0 := by omega
+      subst hx0
+      have hB : (0 + B - 1) % B = B - 1 := by rw [B_eq]
+      refine ⟨?_, i2, Limbs_cons.mpr ⟨by rw [hB]; have := B_pos; omega, i3⟩, by simp [i4]⟩
+      simp only [val_cons, List.length_cons, pow_succ, hB]
+      have := B_pos
+      generalize (decr xs).1 = r at *; generalize (decr xs).2 = c at *
+      have : B - 1 + B * val r + 1 = B * (val r + 1) := by
+        have : B - 1 + 1 = B := by omega
+        calc B - 1 + B * val r + 1 = (B - 1 + 1) + B * val r := by ring
+          _ = B + B * val r := by rw [this]
+          _ = B * (val r + 1) := by ring
+      rw [this, i1]; ring
+    · simp only [h0, if_false]
+      have hm : (x + B - 1) % B = x - 1 := by
+        have : x + B - 1 = (x - 1) + B := by omega
+        rw [this, Nat.add_mod_right, Nat.mod_eq_of_lt (by omega)]
+      refine ⟨?_, by omega, Limbs_cons.mpr ⟨by rw [hm]; omega, hxs⟩, by simp⟩
+      simp only [val_cons, hm]; omega
+
+theorem subLimb_val (x : Nat) (xs : List Nat) (v : Nat) (hu : Limbs (x :: xs)) (hv : v < B) :
+    val (subLimb (x :: xs) v).1 + v = val (x :: xs) + B ^ (xs.length + 1) * (subLimb (x :: xs) v).2 ∧
+    (subLimb (x :: xs) v).2 ≤ 1 ∧ Limbs (subLimb (x :: xs) v).1 ∧
+    (subLimb (x :: xs) v).1.length = xs.length + 1 := by
+  have ⟨hx, hxs⟩ := Limbs_cons.mp hu
+  obtain ⟨i1, i2, i3, i4⟩ := decr_val xs hxs
+  unfold subLimb
+  by_cases h0 : x < v
+  · simp only [h0, if_true]
+    have hm : (x + B - v) % B = x + B - v := Nat.mod_eq_of_lt (by omega)
+    refine ⟨?_, i2, Limbs_cons.mpr ⟨by rw [hm]; omega, i3⟩, by simp [i4]⟩
+    simp only [val_cons, pow_succ, hm]
+    generalize (decr xs).1 = r at *; generalize (decr xs).2 = c at *
+    have : x + B - v + B * val r + v = x + B * (val r + 1) := by
+      have : x + B - v + v = x + B := by omega
+      calc x + B - v + B * val r + v = (x + B - v + v) + B * val r := by ring
+        _ = x + B * (val r + 1) := by rw [this]; ring
+    rw [this, i1]; ring
+  · simp only [h0, if_false]
+    have hm : (x + B - v) % B = x - v := by
+      have : x + B - v = (x - v) + B := by omega
+      rw [this, Nat.add_mod_right, Nat.mod_eq_of_lt (by omega)]
+    refine ⟨?_, by omega, Limbs_cons.mpr ⟨by rw [hm]; omega, hxs⟩, by simp⟩
+    simp only [val_cons, hm]; omega
+
+theorem incr_val : ∀ (u : List Nat), Limbs u →
+    val (incr u).1 + B ^ u.length * (incr u).2 = val u + 1 ∧ (incr u).2 ≤ 1 ∧ Limbs (incr u).1 ∧
+    (incr u).1.length = u.length
+  | [], _ => by simp [incr, Limbs_nil]
+  | x :: xs, hu => by
+    have ⟨hx, hxs⟩ := Limbs_cons.mp hu
+    obtain ⟨i1, i2, i3, i4⟩ := incr_val xs hxs
+    unfold incr
+    by_cases h0 : (x + 1) % B < 1
+    · simp only [h0, if_true]
+      have hx1 : x + 1 = B := by
+        by_contra hne
+        rw [Nat.mod_eq_of_lt (by omega)] at h0; omega
+      have hm : (x + 1) % B = 0 := by rw [hx1, Nat.mod_self]
+      refine ⟨?_, i2, Limbs_cons.mpr ⟨by rw [hm]; exact B_pos, i3⟩, by simp [i4]⟩
+      simp only [val_cons, List.length_cons, pow_succ, hm]
+      generalize (incr xs).1 = r at *; generalize (incr xs).2 = c at *
+      calc 0 + B * val r + B ^ xs.length * B * c = B * (val r + B ^ xs.length * c) := by ring
+        _ = B * (val xs + 1) := by rw [i1]
+        _ = (x + 1) + B * val xs := by rw [hx1]; ring
+        _ = x + B * val xs + 1 := by ring
+    · simp only [h0, if_false]
+      have hm : (x + 1) % B = x + 1 := by
+        apply Nat.mod_eq_of_lt
+        by_contra hge
+        have : x + 1 = B := by omega
+        rw [this, Nat.mod_self] at h0; omega
+      refine ⟨?_, by omega, Limbs_cons.mpr ⟨by rw [hm]; rw [← hm]; exact Nat.mod_lt _ B_pos, hxs⟩, by simp⟩
+      simp only [val_cons, hm]; omega
+
+theorem addLimb_val (x : Nat) (xs : List Nat) (v : Nat) (hu : Limbs (x :: xs)) (hv : v < B) :
+    val (addLimb (x :: xs) v).1 + B ^ (xs.length + 1) * (addLimb (x :: xs) v).2 = val (x :: xs) + v ∧
+    (addLimb (x :: xs) v).2 ≤ 1 ∧ Limbs (addLimb (x :: xs) v).1 ∧
+    (addLimb (x :: xs) v).1.length = xs.length + 1 := by
+  have ⟨hx, hxs⟩ := Limbs_cons.mp hu
+  obtain ⟨i1, i2, i3, i4⟩ := incr_val xs hxs
+  unfold addLimb
+  have hlt : (x + v) % B < B := Nat.mod_lt _ B_pos
+  by_cases h0 : (x + v) % B < v
+  · simp only [h0, if_true]
+    have hge : B ≤ x + v := by
+      by_contra hlt'
+      rw [Nat.mod_eq_of_lt (by omega)] at h0; omega
+    have hm : (x + v) % B = x + v - B := by
+      rw [Nat.mod_eq_sub_mod hge, Nat.mod_eq_of_lt (by omega)]
+    refine ⟨?_, i2, Limbs_cons.mpr ⟨hlt, i3⟩, by simp [i4]⟩
+    simp only [val_cons, pow_succ, hm]
+    generalize (incr xs).1 = r at *; generalize (incr xs).2 = c at *
+    have e : x + v - B + B * val r + B ^ xs.length * B * c = x + v - B + B * (val r + B ^ xs.length * c) := by ring
+    rw [e, i1]
+    have : x + v - B + B * (val xs + 1) = x + v - B + B + B * val xs := by ring
+    rw [this]; omega
+  · simp only [h0, if_false]
+    have hm : (x + v) % B = x + v := by
+      apply Nat.mod_eq_of_lt
+      by_contra hge
+      have hge : B ≤ x + v := by omega
+      rw [Nat.mod_eq_sub_mod hge, Nat.mod_eq_of_lt (by omega)] at h0; omega
+    refine ⟨?_, by omega, Limbs_cons.mpr ⟨hlt, hxs⟩, by simp⟩
+    simp only [val_cons, hm]; omega
+
+/-- high limb non-zero (or empty) -/
+def Norm (l : List Nat) : Prop := l.getLast? ≠ some 0
+
+theorem pow_B_pos (n : Nat) : 0 < B ^ n := Nat.pos_of_ne_zero (by have := B_pos; positivity)
+
+theorem normalize_snoc (l : List Nat) (x : Nat) :
+    normalize (l ++ [x]) = if x = 0 then normalize l else l ++ [x] := by
+  unfold normalize
+  rw [List.reverse_append, List.reverse_singleton, List.singleton_append, List.dropWhile_cons]
+  by_cases hx : x = 0
+  · simp [hx]
+  · simp [hx]
+
+theorem val_snoc (l : List Nat) (x : Nat) : val (l ++ [x]) = val l + B ^ l.length * x := by
+  rw [val_append]; simp
+
+theorem normalize_spec (l : List Nat) : val (normalize l) = val l ∧ Norm (normalize l) ∧
+    (Limbs l → Limbs (normalize l)) ∧ (normalize l).length ≤ l.length ∧
+    l.take (normalize l).length = normalize l := by
+  induction l using List.reverseRecOn with
+  | nil => simp [normalize, Norm]
+  | append_singleton l x ih =>
+    rw [normalize_snoc]
+    by_cases hx : x = 0
+    · simp only [hx, if_true]
+      obtain ⟨i1, i2, i3, i4, i5⟩ := ih
+      refine ⟨by rw [i1, val_snoc]; simp, i2, fun h => i3 (Limbs_append.mp h).1, by simp; omega, ?_⟩
+      rw [List.take_append_of_le_length i4]; exact i5
+    · rw [if_neg hx]
+      exact ⟨rfl, by simp [Norm, hx], fun h => h, le_refl _, List.take_length⟩
+
+theorem scanTop_eq (l : List Nat) : scanTop l = (normalize l).length := by
+  unfold scanTop normalize; simp
+
+theorem take_scanTop (l : List Nat) : l.take (scanTop l) = normalize l := by
+  rw [scanTop_eq]; exact (normalize_spec l).2.2.2.2
+
+theorem Norm_nil : Norm [] := by simp [Norm]
+
+theorem norm_append {x y : List Nat} (hy : y ≠ []) (h : Norm y) : Norm (x ++ y) := by
+  unfold Norm at *; rw [List.getLast?_append]; cases hq : y.getLast? with
+  | none => exact absurd (List.getLast?_eq_none_iff.mp hq) hy
+  | some v => simpa [hq] using h
+
+/-- for proper limbs: high limb non-zero iff the value reaches the top limb -/
+theorem norm_iff_ge (l : List Nat) (hl : Limbs l) (hne : l ≠ []) :
+    Norm l ↔ B ^ (l.length - 1) ≤ val l := by
+  induction l using List.reverseRecOn with
+  | nil => exact absurd rfl hne
+  | append_singleton l x _ =>
+    have hlt := val_lt l (Limbs_append.mp hl).1
+    have hpos := pow_B_pos l.length
+    simp only [Norm, List.getLast?_append, List.getLast?_singleton, Option.some_or, ne_eq,
+      Option.some.injEq, List.length_append, List.length_singleton, Nat.add_sub_cancel, val_snoc]
+    constructor
+    · intro hx
+      have : 1 ≤ x := Nat.pos_of_ne_zero hx
+      nlinarith
+    · intro h hx; subst hx; simp at h
+      generalize B ^ l.length = p at *; omega
+
+theorem val_pos_of_norm {l : List Nat} (hl : Limbs l) (hne : l ≠ []) (h : Norm l) : 1 ≤ val l := by
+  have := (norm_iff_ge l hl hne).mp h
+  have hpos := pow_B_pos (l.length - 1)
+  generalize B ^ (l.length - 1) = p at *
+  omega
+
+theorem addOneGrow_spec (r : List Nat) (hr : Limbs r) (hne : r ≠ []) :
+    val (addOneGrow r) = val r + 1 ∧ Limbs (addOneGrow r) ∧ addOneGrow r ≠ [] ∧
+    (Norm r → Norm (addOneGrow r)) := by
+  match r, hne with
+  | x :: xs, _ =>
+    have h1B : 1 < B := by rw [B_eq]; norm_num
+    obtain ⟨a1, a2, a3, a4⟩ := addLimb_val x xs 1 hr h1B
+    have hn := norm_iff_ge (x :: xs) hr (by simp)
+    unfold addOneGrow
+    generalize addLimb (x :: xs) 1 = res at *
+    obtain ⟨s, cy⟩ := res
+    simp only at a1 a2 a3 a4 ⊢
+    have hs : s ≠ [] := by intro h; rw [h] at a4; simp at a4
+    have hns := norm_iff_ge s a3 hs
+    rw [a4] at hns
+    simp only [List.length_cons, Nat.add_sub_cancel] at hn hns
+    by_cases hc : cy = 0
+    · subst hc
+      rw [Nat.mul_zero, Nat.add_zero] at a1
+      simp only [ne_eq, not_true_eq_false, if_false]
+      refine ⟨a1, a3, hs, fun h => ?_⟩
+      rw [hns, a1]; exact Nat.le_succ_of_le (hn.mp h)
+    · have hc1 : cy = 1 := by omega
+      subst hc1
+      rw [Nat.mul_one] at a1
+      simp only [ne_eq, one_ne_zero, not_false_eq_true, if_true]
+      refine ⟨by rw [val_snoc, a4, Nat.mul_one]; exact a1,
+        Limbs_append.mpr ⟨a3, by intro y hy; simp at hy; rw [hy]; exact h1B⟩,
+        by simp, fun _ => by simp [Norm]⟩
+
+theorem dropTopZero_spec (l : List Nat) (hl : Limbs l) (hne : l ≠ []) (hge : B ^ (l.length - 1) - 1 ≤ val l) :
+    val (dropTopZero l) = val l ∧ Limbs (dropTopZero l) ∧ Norm (dropTopZero l) ∧
+    (dropTopZero l).length ≤ l.length := by
+  induction l using List.reverseRecOn with
+  | nil => exact absurd rfl hne
+  | append_singleton l x _ =>
+    have hll := (Limbs_append.mp hl).1
+    unfold dropTopZero
+    by_cases hx : x = 0
+    · subst hx
+      simp only [List.getLast?_append, List.getLast?_singleton, Option.some_or, if_true,
+        List.dropLast_concat]
+      refine ⟨by rw [val_snoc]; simp, hll, ?_, by simp⟩
+      by_cases hl0 : l = []
+      · subst hl0; exact Norm_nil
+      · rw [norm_iff_ge l hll hl0]
+        simp only [List.length_append, List.length_singleton, Nat.add_sub_cancel, val_snoc, Nat.mul_zero,
+          Nat.add_zero] at hge
+        have hlen : 1 ≤ l.length := List.length_pos_iff.mpr hl0
+        have : B ^ l.length = B * B ^ (l.length - 1) := by
+          rw [← pow_succ']; congr 1; omega
+        have hpos := pow_B_pos (l.length - 1)
+        generalize B ^ (l.length - 1) = p at *
+        generalize B ^ l.length = q at *
+        rw [B_eq] at this; omega
+    · have : ¬ ((l ++ [x]).getLast? = some 0) := by simp [hx]
+      rw [if_neg this]
+      exact ⟨rfl, hl, by simp [Norm, hx], le_refl _⟩
+
+theorem limbOp_and : LimbOp (fun a b => a &&& b) and := ⟨rfl, fun _ _ _ _ => rfl⟩
+theorem limbOp_or : LimbOp (fun a b => a ||| b) or := ⟨rfl, fun _ _ _ _ => rfl⟩
+theorem limbOp_xor : LimbOp (fun a b => a ^^^ b) bne := ⟨rfl, fun _ _ _ _ => rfl⟩
+theorem limbOp_andn : LimbOp (fun a b => a &&& lnotL b) (fun a b => a && !b) :=
+  ⟨rfl, fun a b ha hb => limbop_andn a b ha hb⟩
+
+theorem zip_long_left {g f} (h : LimbOp g f) (hf : f true false = true) (u v : List Nat)
+    (hu : Limbs u) (hv : Limbs v) (hl : v.length ≤ u.length) :
+    val (List.zipWith g u v ++ u.drop v.length) = Nat.bitwise f (val u) (val v) ∧
+    Limbs (List.zipWith g u v ++ u.drop v.length) ∧
+    (List.zipWith g u v ++ u.drop v.length).length = u.length := by
+  obtain ⟨e, l⟩ := zipWith_val h u v hu hv
+  refine ⟨?_, Limbs_append.mpr ⟨l, Limbs_drop hu _⟩, by simp; omega⟩
+  rw [e, val_append, List.drop_of_length_le hl, val_nil, Nat.bitwise_zero_right, if_pos hf]
+  simp
+
+theorem zip_long_right {g f} (h : LimbOp g f) (hf : f false true = true) (u v : List Nat)
+    (hu : Limbs u) (hv : Limbs v) (hl : u.length ≤ v.length) :
+    val (List.zipWith g u v ++ v.drop u.length) = Nat.bitwise f (val u) (val v) ∧
+    Limbs (List.zipWith g u v ++ v.drop u.length) ∧
+    (List.zipWith g u v ++ v.drop u.length).length = v.length := by
+  obtain ⟨e, l⟩ := zipWith_val h u v hu hv
+  refine ⟨?_, Limbs_append.mpr ⟨l, Limbs_drop hv _⟩, by simp; omega⟩
+  rw [e, val_append, List.drop_of_length_le hl, val_nil, Nat.bitwise_zero_left, if_pos hf]
+  simp
+
+theorem zip_short_left {g f} (h : LimbOp g f) (hf : f false true = false) (u v : List Nat)
+    (hu : Limbs u) (hv : Limbs v) (hl : u.length ≤ v.length) :
+    val (List.zipWith g u v) = Nat.bitwise f (val u) (val v) ∧ Limbs (List.zipWith g u v) := by
+  obtain ⟨e, l⟩ := zipWith_val h u v hu hv
+  refine ⟨?_, l⟩
+  rw [e, List.drop_of_length_le hl, val_nil, Nat.bitwise_zero_left, hf]; simp
+
+theorem zip_short_right {g f} (h : LimbOp g f) (hf : f true false = false) (u v : List Nat)
+    (hu : Limbs u) (hv : Limbs v) (hl : v.length ≤ u.length) :
+    val (List.zipWith g u v) = Nat.bitwise f (val u) (val v) ∧ Limbs (List.zipWith g u v) := by
+  obtain ⟨e, l⟩ := zipWith_val h u v hu hv
+  refine ⟨?_, l⟩
+  rw [e, List.drop_of_length_le hl, val_nil, Nat.bitwise_zero_right, hf]; simp
+
+/-- mpn_and_n on any lengths (the shorter length counts) -/
+theorem and_n_val_any (u v : List Nat) (hu : Limbs u) (hv : Limbs v) :
+    val (and_n u v) = val u &&& val v ∧ Limbs (and_n u v) := by
+  by_cases hl : u.length ≤ v.length
+  · exact zip_short_left limbOp_and rfl u v hu hv hl
+  · exact zip_short_right limbOp_and rfl u v hu hv (by omega)
+
+/-- subtracting 1 from a non-zero magnitude -/
+theorem subOne_val (u : List Nat) (hu : Limbs u) (h1 : 1 ≤ val u) :
+    val (subLimb u 1).1 = val u - 1 ∧ Limbs (subLimb u 1).1 ∧ (subLimb u 1).1.length = u.length := by
+  match u with
+  | [] => simp at h1
+  | x :: xs =>
+    have h1B : 1 < B := by rw [B_eq]; norm_num
+    obtain ⟨a1, a2, a3, a4⟩ := subLimb_val x xs 1 hu h1B
+    have hlt := val_lt _ a3
+    rw [a4] at hlt
+    refine ⟨?_, a3, by simpa using a4⟩
+    generalize (subLimb (x :: xs) 1).2 = c at *
+    generalize val (subLimb (x :: xs) 1).1 = r at *
+    generalize val (x :: xs) = vu at *
+    have hc : c = 0 := by
+      by_contra hc
+      have : c = 1 := by omega
+      subst this
+      rw [Nat.mul_one] at a1
+      generalize B ^ (xs.length + 1) = p at *
+      omega
+    subst hc; rw [Nat.mul_zero] at a1; omega
+
+theorem and_n_take (a b : List Nat) (n : Nat) : and_n (a.take n) (b.take n) = (and_n a b).take n := by
+  unfold and_n; rw [List.take_zipWith]
+theorem andn_n_take (a b : List Nat) (n : Nat) : andn_n (a.take n) (b.take n) = (andn_n a b).take n := by
+  unfold andn_n; rw [List.take_zipWith]
+
+theorem andPP_spec (a b : List Nat) (ha : Limbs a) (hb : Limbs b) :
+    (andPP a b).neg = false ∧ val (andPP a b).mag = val a &&& val b ∧ Limbs (andPP a b).mag ∧
+    Norm (andPP a b).mag := by
+  unfold andPP
+  simp only [and_n_take, take_scanTop]
+  obtain ⟨n1, n2, n3, _, _⟩ := normalize_spec (and_n a b)
+  obtain ⟨e, l⟩ := and_n_val_any a b ha hb
+  exact ⟨trivial, by rw [n1, e], n3 l, n2⟩
+
+theorem andPN_spec (a b : List Nat) (ha : Limbs a) (hna : Norm a) (hb : Limbs b) (h1 : 1 ≤ val b) :
+    (andPN a b).neg = false ∧ val (andPN a b).mag = ldiff (val a) (val b - 1) ∧ Limbs (andPN a b).mag ∧
+    Norm (andPN a b).mag := by
+  obtain ⟨s1, s2, s3⟩ := subOne_val b hb h1
+  unfold andPN
+  by_cases hl : a.length > b.length
+  · simp only [hl, if_true]
+    have := zip_long_left limbOp_andn rfl a (subLimb b 1).1 ha s2 (by omega)
+    rw [s3, s1] at this
+    refine ⟨trivial, this.1, this.2.1, ?_⟩
+    have hd : a.drop b.length ≠ [] := by
+      intro h; have := congrArg List.length h; simp at this; omega
+    apply norm_append hd
+    unfold Norm at *; rwa [List.getLast?_drop, if_neg (by omega)]
+  · simp only [hl, if_false]
+    simp only [andn_n_take, take_scanTop]
+    obtain ⟨n1, n2, n3, _, _⟩ := normalize_spec (andn_n a (subLimb b 1).1)
+    have := zip_short_left limbOp_andn rfl a (subLimb b 1).1 ha s2 (by omega)
+    rw [s1] at this
+    exact ⟨trivial, by rw [n1]; exact this.1, n3 this.2, n2⟩
+
+/-- the grown result is normalised as soon as its value reaches the top limb (the "some analysis shows that we
+    surely would get carry into the zero-limb" remark of and.c:88-91) -/
+theorem addOneGrow_norm (r : List Nat) (hr : Limbs r) (hne : r ≠ []) (hge : B ^ (r.length - 1) ≤ val r + 1) :
+    Norm (addOneGrow r) := by
+  match r, hne with
+  | x :: xs, _ =>
+    have h1B : 1 < B := by rw [B_eq]; norm_num
+    obtain ⟨a1, a2, a3, a4⟩ := addLimb_val x xs 1 hr h1B
+    unfold addOneGrow
+    generalize addLimb (x :: xs) 1 = res at *
+    obtain ⟨s, cy⟩ := res
+    simp only at a1 a2 a3 a4 ⊢
+    have hs : s ≠ [] := by intro h; rw [h] at a4; simp at a4
+    have hns := norm_iff_ge s a3 hs
+    rw [a4] at hns
+    simp only [List.length_cons, Nat.add_sub_cancel] at hge hns
+    by_cases hc : cy = 0
+    · subst hc
+      rw [Nat.mul_zero, Nat.add_zero] at a1
+      simp only [ne_eq, not_true_eq_false, if_false]
+      rw [hns, a1]; exact hge
+    · simp only [ne_eq, hc, not_false_eq_true, if_true]
+      have hc1 : cy = 1 := by omega
+      subst hc1; simp [Norm]
+
+theorem andNN_spec (a b : List Nat) (ha : Limbs a) (hna : Norm a) (hb : Limbs b) (hnb : Norm b)
+    (ha1 : 1 ≤ val a) (hb1 : 1 ≤ val b) :
+    (andNN a b).neg = true ∧ val (andNN a b).mag = ((val a - 1) ||| (val b - 1)) + 1 ∧
+    Limbs (andNN a b).mag ∧ Norm (andNN a b).mag ∧ (andNN a b).mag ≠ [] := by
+  obtain ⟨s1, s2, s3⟩ := subOne_val a ha ha1
+  obtain ⟨t1, t2, t3⟩ := subOne_val b hb hb1
+  have hane : a ≠ [] := by intro h; subst h; simp at ha1
+  have hbne : b ≠ [] := by intro h; subst h; simp at hb1
+  have ga := (norm_iff_ge a ha hane).mp hna
+  have gb := (norm_iff_ge b hb hbne).mp hnb
+  have alen : 1 ≤ a.length := List.length_pos_iff.mpr hane
+  have blen : 1 ≤ b.length := List.length_pos_iff.mpr hbne
+  unfold andNN
+  simp only
+  -- the limb list before the `+ 1`
+  have key : ∃ r, (if a.length ≥ b.length then ior_n (subLimb a 1).1 (subLimb b 1).1 ++ (subLimb a 1).1.drop b.length
+      else ior_n (subLimb a 1).1 (subLimb b 1).1 ++ (subLimb b 1).1.drop a.length) = r ∧
+      val r = (val a - 1) ||| (val b - 1) ∧ Limbs r ∧ r.length = max a.length b.length := by
+    by_cases hl : a.length ≥ b.length
+    · rw [if_pos hl]
+      have := zip_long_left limbOp_or rfl (subLimb a 1).1 (subLimb b 1).1 s2 t2 (by omega)
+      rw [t3, s1, t1, s3] at this
+      exact ⟨_, rfl, this.1, this.2.1, by unfold ior_n; rw [this.2.2]; omega⟩
+    · rw [if_neg hl]
+      have := zip_long_right limbOp_or rfl (subLimb a 1).1 (subLimb b 1).1 s2 t2 (by omega)
+      rw [s3, s1, t1, t3] at this
+      exact ⟨_, rfl, this.1, this.2.1, by unfold ior_n; rw [this.2.2]; omega⟩
+  obtain ⟨r, hr, rv, rl, rlen⟩ := key
+  rw [hr]
+  have rne : r ≠ [] := by intro h; subst h; simp at rlen; omega
+  obtain ⟨g1, g2, g3, _⟩ := addOneGrow_spec r rl rne
+  refine ⟨trivial, by rw [g1, rv], g2, ?_, g3⟩
+  apply addOneGrow_norm r rl rne
+  rw [rv, rlen]
+  have o1 : val a - 1 ≤ (val a - 1) ||| (val b - 1) := Nat.left_le_or
+  have o2 : val b - 1 ≤ (val a - 1) ||| (val b - 1) := Nat.right_le_or
+  by_cases hl : a.length ≥ b.length
+  · rw [Nat.max_eq_left hl]
+    generalize B ^ (a.length - 1) = p at *; omega
+  · rw [Nat.max_eq_right (by omega)]
+    generalize B ^ (b.length - 1) = p at *; omega
+
+theorem toInt_nonneg (z : Z) (h : z.neg = false) : z.toInt = Int.ofNat (val z.mag) := by
+  unfold Z.toInt; simp [h]
+
+theorem toInt_neg (z : Z) (h : z.neg = true) (h1 : 1 ≤ val z.mag) :
+    z.toInt = Int.negSucc (val z.mag - 1) := by
+  unfold Z.toInt; simp only [h, if_true]
+  obtain ⟨k, hk⟩ : ∃ k, val z.mag = k + 1 := ⟨val z.mag - 1, by omega⟩
+  rw [hk]; rfl
+
+theorem Z.WF.limbs {z : Z} (h : z.WF) : Limbs z.mag := h.1
+theorem Z.WF.norm {z : Z} (h : z.WF) : Norm z.mag := h.2.1
+theorem Z.WF.pos {z : Z} (h : z.WF) (hn : z.neg = true) : 1 ≤ val z.mag :=
+  val_pos_of_norm h.1 (h.2.2 hn) h.2.1
+theorem Z.WF.mk' {z : Z} (h1 : Limbs z.mag) (h2 : Norm z.mag) (h3 : z.neg = true → z.mag ≠ []) : z.WF :=
+  ⟨h1, h2, h3⟩
+
+theorem mpz_and_land (a b : Z) (ha : a.WF) (hb : b.WF) :
+    (mpz_and a b).toInt = land a.toInt b.toInt ∧ (mpz_and a b).WF := by
+  unfold mpz_and
+  cases hna : a.neg <;> cases hnb : b.neg <;> simp only [Bool.not_false, Bool.not_true, Bool.false_eq_true, ↓reduceIte]
+  · obtain ⟨r1, r2, r3, r4⟩ := andPP_spec a.mag b.mag ha.limbs hb.limbs
+    refine ⟨?_, Z.WF.mk' r3 r4 (by rw [r1]; intro h; cases h)⟩
+    rw [toInt_nonneg _ r1, toInt_nonneg a hna, toInt_nonneg b hnb, r2]; rfl
+  · obtain ⟨r1, r2, r3, r4⟩ := andPN_spec a.mag b.mag ha.limbs ha.norm hb.limbs (hb.pos hnb)
+    refine ⟨?_, Z.WF.mk' r3 r4 (by rw [r1]; intro h; cases h)⟩
+    rw [toInt_nonneg _ r1, toInt_nonneg a hna, toInt_neg b hnb (hb.pos hnb), r2]; rfl
+  · obtain ⟨r1, r2, r3, r4⟩ := andPN_spec b.mag a.mag hb.limbs hb.norm ha.limbs (ha.pos hna)
+    refine ⟨?_, Z.WF.mk' r3 r4 (by rw [r1]; intro h; cases h)⟩
+    rw [toInt_nonneg _ r1, toInt_neg a hna (ha.pos hna), toInt_nonneg b hnb, r2]; rfl
+  · obtain ⟨r1, r2, r3, r4, r5⟩ := andNN_spec a.mag b.mag ha.limbs ha.norm hb.limbs hb.norm (ha.pos hna) (hb.pos hnb)
+    refine ⟨?_, Z.WF.mk' r3 r4 (fun _ => r5)⟩
+    rw [toInt_neg _ r1 (by rw [r2]; omega), toInt_neg a hna (ha.pos hna), toInt_neg b hnb (hb.pos hnb), r2]; rfl
+
+theorem norm_of_ge {l : List Nat} (hl : Limbs l) (h : l = [] ∨ B ^ (l.length - 1) ≤ val l) : Norm l := by
+  by_cases hne : l = []
+  · subst hne; exact Norm_nil
+  · rcases h with h | h
+    · exact absurd h hne
+    · exact (norm_iff_ge l hl hne).mpr h
+
+theorem iorPP_spec (a b : List Nat) (ha : Limbs a) (hna : Norm a) (hb : Limbs b) (hnb : Norm b) :
+    (iorPP a b).neg = false ∧ val (iorPP a b).mag = val a ||| val b ∧ Limbs (iorPP a b).mag ∧
+    Norm (iorPP a b).mag := by
+  unfold iorPP
+  have o1 : val a ≤ val a ||| val b := Nat.left_le_or
+  have o2 : val b ≤ val a ||| val b := Nat.right_le_or
+  by_cases hl : a.length ≥ b.length
+  · rw [if_pos hl]
+    obtain ⟨e, l, len⟩ := zip_long_left limbOp_or rfl a b ha hb hl
+    refine ⟨rfl, e, l, norm_of_ge l ?_⟩
+    by_cases hane : a = []
+    · left; subst hane; simp at hl; subst hl; rfl
+    · right
+      have ga := (norm_iff_ge a ha hane).mp hna
+      change B ^ ((List.zipWith (fun a b => a ||| b) a b ++ a.drop b.length).length - 1) ≤
+        val (List.zipWith (fun a b => a ||| b) a b ++ a.drop b.length)
+      rw [len, e]
+      exact le_trans ga o1
+  · rw [if_neg hl]
+    obtain ⟨e, l, len⟩ := zip_long_right limbOp_or rfl a b ha hb (by omega)
+    refine ⟨rfl, e, l, norm_of_ge l ?_⟩
+    right
+    have hbne : b ≠ [] := by intro h; subst h; simp at hl
+    have gb := (norm_iff_ge b hb hbne).mp hnb
+    change B ^ ((List.zipWith (fun a b => a ||| b) a b ++ b.drop a.length).length - 1) ≤
+      val (List.zipWith (fun a b => a ||| b) a b ++ b.drop a.length)
+    rw [len, e]
+    exact le_trans gb o2
+
+/-- the low `n` limbs of `val a - 1`, as computed by the truncated `mpn_sub_1` of ior.c:110-116 -/
+theorem subOne_trunc (a : List Nat) (ha : Limbs a) (h1 : 1 ≤ val a) (n : Nat) (hn1 : 1 ≤ n) (hn : n ≤ a.length) :
+    val (subLimb (a.take n) 1).1 = (val a - 1) % B ^ n ∧ Limbs (subLimb (a.take n) 1).1 ∧
+    (subLimb (a.take n) 1).1.length = n := by
+  have hlen : (a.take n).length = n := by simp [hn]
+  have hlt := val_lt _ (Limbs_take ha n)
+  rw [hlen] at hlt
+  have hsplit := val_take_drop a n hn
+  match hm : a.take n, hlen with
+  | [], h0 => simp at h0; omega
+  | x :: xs, hlen' =>
+    have h1B : 1 < B := by rw [B_eq]; norm_num
+    rw [hm] at hlt hsplit
+    obtain ⟨a1, a2, a3, a4⟩ := subLimb_val x xs 1 (hm ▸ Limbs_take ha n) h1B
+    have hrl := val_lt _ a3
+    simp only [List.length_cons] at hlen'
+    rw [a4, hlen'] at hrl
+    rw [hlen'] at a1
+    refine ⟨?_, a3, by rw [a4]; exact hlen'⟩
+    have ppos := pow_B_pos n
+    generalize (subLimb (x :: xs) 1).2 = c at *
+    generalize val (subLimb (x :: xs) 1).1 = r at *
+    generalize val (x :: xs) = lo at *
+    generalize val (a.drop n) = hi at *
+    generalize B ^ n = p at *
+    rw [hsplit]
+    by_cases hlo : 1 ≤ lo
+    · have hc : c = 0 := by
+        by_contra hc
+        have : c = 1 := by omega
+        subst this; omega
+      subst hc
+      have : lo + p * hi - 1 = (lo - 1) + p * hi := by omega
+      rw [this, Nat.add_mul_mod_self_left, Nat.mod_eq_of_lt (by omega)]; omega
+    · have hlo0 : lo = 0 := by omega
+      subst hlo0
+      have hc : c = 1 := by
+        by_contra hc
+        have : c = 0 := by omega
+        subst this; omega
+      subst hc
+      obtain ⟨k, hk⟩ : ∃ k, hi = k + 1 := ⟨hi - 1, by
+        rcases Nat.eq_zero_or_pos hi with h | h
+        · subst h; simp at hsplit; omega
+        · omega⟩
+      subst hk
+      have : 0 + p * (k + 1) - 1 = (p - 1) + p * k := by
+        rw [Nat.mul_succ]; omega
+      rw [this, Nat.add_mul_mod_self_left, Nat.mod_eq_of_lt (by omega)]; omega
+
+/-- ior.c:128-150 / 200-232: size scan, `+ 1` with growth, or the literal 1 when everything is zero -/
+theorem growScan_spec (X : List Nat) (hX : Limbs X) :
+    val (if scanTop X ≠ 0 then addOneGrow (X.take (scanTop X)) else [1]) = val X + 1 ∧
+    Limbs (if scanTop X ≠ 0 then addOneGrow (X.take (scanTop X)) else [1]) ∧
+    Norm (if scanTop X ≠ 0 then addOneGrow (X.take (scanTop X)) else [1]) ∧
+    (if scanTop X ≠ 0 then addOneGrow (X.take (scanTop X)) else [1]) ≠ [] := by
+  obtain ⟨n1, n2, n3, _, _⟩ := normalize_spec X
+  rw [take_scanTop, scanTop_eq]
+  by_cases h0 : (normalize X).length ≠ 0
+  · rw [if_pos h0]
+    have hne : normalize X ≠ [] := by intro h; rw [h] at h0; simp at h0
+    obtain ⟨g1, g2, g3, g4⟩ := addOneGrow_spec (normalize X) (n3 hX) hne
+    exact ⟨by rw [g1, n1], g2, g4 n2, g3⟩
+  · rw [if_neg h0]
+    have hnil : normalize X = [] := by
+      apply List.eq_nil_of_length_eq_zero; omega
+    rw [hnil] at n1
+    refine ⟨by rw [← n1]; simp, ?_, by simp [Norm], by simp⟩
+    intro y hy; simp at hy; rw [hy, B_eq]; norm_num
+
+theorem and_lt_of_left {m n p : Nat} (h : m < p) : m &&& n < p := lt_of_le_of_lt Nat.and_le_left h
+theorem and_lt_of_right {m n p : Nat} (h : n < p) : m &&& n < p := lt_of_le_of_lt Nat.and_le_right h
+
+theorem iorNN_spec (a b : List Nat) (ha : Limbs a) (hna : Norm a) (hb : Limbs b) (hnb : Norm b)
+    (ha1 : 1 ≤ val a) (hb1 : 1 ≤ val b) :
+    (iorNN a b).neg = true ∧ val (iorNN a b).mag = ((val a - 1) &&& (val b - 1)) + 1 ∧
+    Limbs (iorNN a b).mag ∧ Norm (iorNN a b).mag ∧ (iorNN a b).mag ≠ [] := by
+  have hane : a ≠ [] := by intro h; subst h; simp at ha1
+  have hbne : b ≠ [] := by intro h; subst h; simp at hb1
+  have alen : 1 ≤ a.length := List.length_pos_iff.mpr hane
+  have blen : 1 ≤ b.length := List.length_pos_iff.mpr hbne
+  set n := min a.length b.length with hn
+  obtain ⟨s1, s2, s3⟩ := subOne_trunc a ha ha1 n (by omega) (by omega)
+  obtain ⟨t1, t2, t3⟩ := subOne_trunc b hb hb1 n (by omega) (by omega)
+  obtain ⟨e, l⟩ := zipWith_eqlen limbOp_and (subLimb (a.take n) 1).1 (subLimb (b.take n) 1).1
+    (by rw [s3, t3]) s2 t2
+  -- value of the limb-wise and
+  have hv : val (and_n (subLimb (a.take n) 1).1 (subLimb (b.take n) 1).1) = (val a - 1) &&& (val b - 1) := by
+    change val (List.zipWith (fun a b => a &&& b) _ _) = _
+    rw [e, s1, t1]
+    change (val a - 1) % B ^ n &&& (val b - 1) % B ^ n = _
+    rw [B_pow, ← Nat.and_mod_two_pow, ← B_pow]
+    apply Nat.mod_eq_of_lt
+    have la := val_lt a ha; have lb := val_lt b hb
+    by_cases hl : a.length ≤ b.length
+    · have : n = a.length := by omega
+      rw [this]; apply and_lt_of_left
+      generalize B ^ a.length = p at *; omega
+    · have : n = b.length := by omega
+      rw [this]; apply and_lt_of_right
+      generalize B ^ b.length = p at *; omega
+  obtain ⟨g1, g2, g3, g4⟩ := growScan_spec (and_n (subLimb (a.take n) 1).1 (subLimb (b.take n) 1).1) l
+  unfold iorNN
+  simp only [and_n_take, ← hn]
+  split
+  · rename_i h; rw [if_pos h] at g1 g2 g3 g4
+    exact ⟨rfl, by rw [g1, hv], g2, g3, g4⟩
+  · rename_i h; rw [if_neg h] at g1 g2 g3 g4
+    exact ⟨rfl, by rw [g1, hv], g2, g3, g4⟩
+
+/-- `|op2| - 1` with its top limb dropped when it became zero (ior.c:180-183, com.c:80-81) -/
+theorem subOneDrop_spec (b : List Nat) (hb : Limbs b) (hnb : Norm b) (hb1 : 1 ≤ val b) :
+    val (dropTopZero (subLimb b 1).1) = val b - 1 ∧ Limbs (dropTopZero (subLimb b 1).1) ∧
+    Norm (dropTopZero (subLimb b 1).1) ∧ (dropTopZero (subLimb b 1).1).length ≤ b.length := by
+  have hbne : b ≠ [] := by intro h; subst h; simp at hb1
+  obtain ⟨s1, s2, s3⟩ := subOne_val b hb hb1
+  have gb := (norm_iff_ge b hb hbne).mp hnb
+  have hne : (subLimb b 1).1 ≠ [] := by
+    intro h; have h2 := congrArg List.length h; rw [s3, List.length_nil] at h2
+    have : 1 ≤ b.length := List.length_pos_iff.mpr hbne
+    omega
+  obtain ⟨d1, d2, d3, d4⟩ := dropTopZero_spec (subLimb b 1).1 s2 hne (by
+    rw [s3, s1]; exact Nat.sub_le_sub_right gb 1)
+  exact ⟨by rw [d1, s1], d2, d3, by rw [← s3]; exact d4⟩
+
+theorem iorPN_spec (a b : List Nat) (ha : Limbs a) (hb : Limbs b) (hnb : Norm b) (hb1 : 1 ≤ val b) :
+    (iorPN a b).neg = true ∧ val (iorPN a b).mag = ldiff (val b - 1) (val a) + 1 ∧
+    Limbs (iorPN a b).mag ∧ Norm (iorPN a b).mag ∧ (iorPN a b).mag ≠ [] := by
+  obtain ⟨d1, d2, d3, _⟩ := subOneDrop_spec b hb hnb hb1
+  unfold iorPN
+  simp only
+  generalize dropTopZero (subLimb b 1).1 = o2 at *
+  by_cases hl : a.length ≥ o2.length
+  · rw [if_pos hl]
+    obtain ⟨e, l⟩ := zip_short_left limbOp_andn rfl o2 a d2 ha hl
+    obtain ⟨g1, g2, g3, g4⟩ := growScan_spec (andn_n o2 a) l
+    have hv : val (andn_n o2 a) = ldiff (val b - 1) (val a) := by rw [← d1]; exact e
+    simp only [andn_n_take]
+    split
+    · rename_i h; rw [if_pos h] at g1 g2 g3 g4
+      exact ⟨rfl, by rw [g1, hv], g2, g3, g4⟩
+    · rename_i h; rw [if_neg h] at g1 g2 g3 g4
+      exact ⟨rfl, by rw [g1, hv], g2, g3, g4⟩
+  · rw [if_neg hl]
+    obtain ⟨e, l, len⟩ := zip_long_left limbOp_andn rfl o2 a d2 ha (by omega)
+    have hd : o2.drop a.length ≠ [] := by
+      intro h; have := congrArg List.length h; simp at this; omega
+    have hnorm : Norm (andn_n o2 a ++ o2.drop a.length) := by
+      apply norm_append hd
+      unfold Norm at *; rwa [List.getLast?_drop, if_neg (by omega)]
+    have hne : andn_n o2 a ++ o2.drop a.length ≠ [] := by simp [hd]
+    obtain ⟨g1, g2, g3, g4⟩ := addOneGrow_spec _ l hne
+    exact ⟨rfl, by change val (addOneGrow (List.zipWith _ o2 a ++ _)) = _; rw [g1, e, d1]; rfl, g2, g4 hnorm, g3⟩
+
+theorem mpz_ior_lor (a b : Z) (ha : a.WF) (hb : b.WF) :
+    (mpz_ior a b).toInt = lor a.toInt b.toInt ∧ (mpz_ior a b).WF := by
+  unfold mpz_ior
+  cases hna : a.neg <;> cases hnb : b.neg <;>
+    simp only [Bool.not_false, Bool.not_true, Bool.false_eq_true, ↓reduceIte]
+  · obtain ⟨r1, r2, r3, r4⟩ := iorPP_spec a.mag b.mag ha.limbs ha.norm hb.limbs hb.norm
+    refine ⟨?_, Z.WF.mk' r3 r4 (by rw [r1]; intro h; cases h)⟩
+    rw [toInt_nonneg _ r1, toInt_nonneg a hna, toInt_nonneg b hnb, r2]; rfl
+  · obtain ⟨r1, r2, r3, r4, r5⟩ := iorPN_spec a.mag b.mag ha.limbs hb.limbs hb.norm (hb.pos hnb)
+    refine ⟨?_, Z.WF.mk' r3 r4 (fun _ => r5)⟩
+    rw [toInt_neg _ r1 (by rw [r2]; omega), toInt_nonneg a hna, toInt_neg b hnb (hb.pos hnb), r2]; rfl
+  · obtain ⟨r1, r2, r3, r4, r5⟩ := iorPN_spec b.mag a.mag hb.limbs ha.limbs ha.norm (ha.pos hna)
+    refine ⟨?_, Z.WF.mk' r3 r4 (fun _ => r5)⟩
+    rw [toInt_neg _ r1 (by rw [r2]; omega), toInt_neg a hna (ha.pos hna), toInt_nonneg b hnb, r2]; rfl
+  · obtain ⟨r1, r2, r3, r4, r5⟩ := iorNN_spec a.mag b.mag ha.limbs ha.norm hb.limbs hb.norm (ha.pos hna) (hb.pos hnb)
+    refine ⟨?_, Z.WF.mk' r3 r4 (fun _ => r5)⟩
+    rw [toInt_neg _ r1 (by rw [r2]; omega), toInt_neg a hna (ha.pos hna), toInt_neg b hnb (hb.pos hnb), r2]; rfl
+
+theorem xorCat_spec (a b : List Nat) (ha : Limbs a) (hb : Limbs b) :
+    val (xorCat a b) = val a ^^^ val b ∧ Limbs (xorCat a b) ∧ (xorCat a b).length = max a.length b.length := by
+  unfold xorCat
+  by_cases hl : a.length > b.length
+  · rw [if_pos hl]
+    obtain ⟨e, l, len⟩ := zip_long_left limbOp_xor rfl a b ha hb (by omega)
+    exact ⟨e, l, by unfold xor_n; rw [len]; omega⟩
+  · rw [if_neg hl]
+    obtain ⟨e, l, len⟩ := zip_long_right limbOp_xor rfl a b ha hb (by omega)
+    exact ⟨e, l, by unfold xor_n; rw [len]; omega⟩
+
+theorem xorPP_spec (a b : List Nat) (ha : Limbs a) (hb : Limbs b) :
+    (xorPP a b).neg = false ∧ val (xorPP a b).mag = val a ^^^ val b ∧ Limbs (xorPP a b).mag ∧
+    Norm (xorPP a b).mag := by
+  obtain ⟨e, l, _⟩ := xorCat_spec a b ha hb
+  obtain ⟨n1, n2, n3, _, _⟩ := normalize_spec (xorCat a b)
+  exact ⟨rfl, by unfold xorPP; rw [n1, e], n3 l, n2⟩
+
+theorem xorNN_spec (a b : List Nat) (ha : Limbs a) (hb : Limbs b) (ha1 : 1 ≤ val a) (hb1 : 1 ≤ val b) :
+    (xorNN a b).neg = false ∧ val (xorNN a b).mag = (val a - 1) ^^^ (val b - 1) ∧ Limbs (xorNN a b).mag ∧
+    Norm (xorNN a b).mag := by
+  obtain ⟨s1, s2, _⟩ := subOne_val a ha ha1
+  obtain ⟨t1, t2, _⟩ := subOne_val b hb hb1
+  obtain ⟨e, l, _⟩ := xorCat_spec _ _ s2 t2
+  obtain ⟨n1, n2, n3, _, _⟩ := normalize_spec (xorCat (subLimb a 1).1 (subLimb b 1).1)
+  exact ⟨rfl, by unfold xorNN; rw [n1, e, s1, t1], n3 l, n2⟩
+
+theorem xorPN_spec (a b : List Nat) (ha : Limbs a) (hb : Limbs b) (hb1 : 1 ≤ val b) :
+    (xorPN a b).neg = true ∧ val (xorPN a b).mag = (val a ^^^ (val b - 1)) + 1 ∧ Limbs (xorPN a b).mag ∧
+    Norm (xorPN a b).mag ∧ (xorPN a b).mag ≠ [] := by
+  have hbne : b ≠ [] := by intro h; subst h; simp at hb1
+  obtain ⟨t1, t2, t3⟩ := subOne_val b hb hb1
+  obtain ⟨e, l, len⟩ := xorCat_spec a _ ha t2
+  have hne : xorCat a (subLimb b 1).1 ≠ [] := by
+    intro h; have h2 := congrArg List.length h
+    rw [len, t3, List.length_nil] at h2
+    have : 1 ≤ b.length := List.length_pos_iff.mpr hbne
+    omega
+  obtain ⟨g1, g2, _, _⟩ := addOneGrow_spec _ l hne
+  obtain ⟨n1, n2, n3, _, _⟩ := normalize_spec (addOneGrow (xorCat a (subLimb b 1).1))
+  have hv : val (xorPN a b).mag = (val a ^^^ (val b - 1)) + 1 := by
+    unfold xorPN; rw [n1, g1, e, t1]
+  refine ⟨rfl, hv, n3 g2, n2, ?_⟩
+  intro h; rw [h] at hv; simp at hv
+
+theorem mpz_xor_lxor (a b : Z) (ha : a.WF) (hb : b.WF) :
+    (mpz_xor a b).toInt = lxor a.toInt b.toInt ∧ (mpz_xor a b).WF := by
+  unfold mpz_xor
+  cases hna : a.neg <;> cases hnb : b.neg <;>
+    simp only [Bool.not_false, Bool.not_true, Bool.false_eq_true, ↓reduceIte]
+  · obtain ⟨r1, r2, r3, r4⟩ := xorPP_spec a.mag b.mag ha.limbs hb.limbs
+    refine ⟨?_, Z.WF.mk' r3 r4 (by rw [r1]; intro h; cases h)⟩
+    rw [toInt_nonneg _ r1, toInt_nonneg a hna, toInt_nonneg b hnb, r2]; rfl
+  · obtain ⟨r1, r2, r3, r4, r5⟩ := xorPN_spec a.mag b.mag ha.limbs hb.limbs (hb.pos hnb)
+    refine ⟨?_, Z.WF.mk' r3 r4 (fun _ => r5)⟩
+    rw [toInt_neg _ r1 (by rw [r2]; omega), toInt_nonneg a hna, toInt_neg b hnb (hb.pos hnb), r2]; rfl
+  · obtain ⟨r1, r2, r3, r4, r5⟩ := xorPN_spec b.mag a.mag hb.limbs ha.limbs (ha.pos hna)
+    refine ⟨?_, Z.WF.mk' r3 r4 (fun _ => r5)⟩
+    rw [toInt_neg _ r1 (by rw [r2]; omega), toInt_neg a hna (ha.pos hna), toInt_nonneg b hnb, r2,
+      Nat.xor_comm]; rfl
+  · obtain ⟨r1, r2, r3, r4⟩ := xorNN_spec a.mag b.mag ha.limbs hb.limbs (ha.pos hna) (hb.pos hnb)
+    refine ⟨?_, Z.WF.mk' r3 r4 (by rw [r1]; intro h; cases h)⟩
+    rw [toInt_nonneg _ r1, toInt_neg a hna (ha.pos hna), toInt_neg b hnb (hb.pos hnb), r2]; rfl
+
+theorem mpz_com_lnot (a : Z) (ha : a.WF) : (mpz_com a).toInt = lnot a.toInt ∧ (mpz_com a).WF := by
+  unfold mpz_com
+  cases hna : a.neg <;> simp only [Bool.not_false, Bool.not_true, Bool.false_eq_true, ↓reduceIte]
+  · by_cases h0 : a.mag.length = 0
+    · rw [if_pos h0]
+      have hnil : a.mag = [] := List.eq_nil_of_length_eq_zero h0
+      refine ⟨?_, ⟨by intro y hy; simp at hy; rw [hy, B_eq]; norm_num, by simp, by simp⟩⟩
+      rw [toInt_nonneg a hna, hnil]; rfl
+    · rw [if_neg h0]
+      have hne : a.mag ≠ [] := by intro h; rw [h] at h0; simp at h0
+      obtain ⟨g1, g2, g3, g4⟩ := addOneGrow_spec a.mag ha.limbs hne
+      refine ⟨?_, Z.WF.mk' g2 (g4 ha.norm) (fun _ => g3)⟩
+      rw [toInt_neg _ rfl (by change 1 ≤ val (addOneGrow a.mag); rw [g1]; omega), toInt_nonneg a hna]
+      change Int.negSucc (val (addOneGrow a.mag) - 1) = _
+      rw [g1]; rfl
+  · obtain ⟨d1, d2, d3, _⟩ := subOneDrop_spec a.mag ha.limbs ha.norm (ha.pos hna)
+    refine ⟨?_, Z.WF.mk' d2 d3 (by intro h; cases h)⟩
+    rw [toInt_nonneg _ rfl, toInt_neg a hna (ha.pos hna)]
+    change Int.ofNat (val (dropTopZero (subLimb a.mag 1).1)) = _
+    rw [d1]; rfl
+
+theorem com_n_val : ∀ (u : List Nat), Limbs u →
+    val (com_n u) = B ^ u.length - 1 - val u ∧ Limbs (com_n u) ∧ (com_n u).length = u.length
+  | [], _ => by simp [com_n, Limbs_nil]
+  | x :: xs, hu => by
+    have ⟨hx, hxs⟩ := Limbs_cons.mp hu
+    obtain ⟨i1, i2, i3⟩ := com_n_val xs hxs
+    have hlt := val_lt xs hxs
+    unfold com_n at *
+    simp only [List.map_cons, val_cons, List.length_cons, pow_succ]
+    refine ⟨?_, Limbs_cons.mpr ⟨by unfold lnotL; omega, i2⟩, by simp [i3]⟩
+    rw [i1]; unfold lnotL
+    have hp := pow_B_pos xs.length
+    generalize B ^ xs.length = p at *
+    generalize val xs = v at *
+    have hB := B_pos
+    -- B - 1 - x + B * (p - 1 - v) = p * B - 1 - (x + B * v)
+    obtain ⟨k, hk⟩ : ∃ k, p = v + 1 + k := ⟨p - 1 - v, by omega⟩
+    subst hk
+    have e1 : v + 1 + k - 1 - v = k := by omega
+    rw [e1]
+    have e2 : (v + 1 + k) * B = B * v + B + B * k := by ring
+    rw [e2]; omega
+
+theorem limb_iorn (a b : Nat) (ha : a < B) (hb : b < B) : a ||| lnotL b = lnotL (b &&& lnotL a) := by
+  apply Nat.eq_of_testBit_eq; intro i
+  have hlt : b &&& lnotL a < B := lt_of_le_of_lt Nat.and_le_left hb
+  rw [Nat.testBit_or, testBit_lnotL b hb, testBit_lnotL _ hlt, Nat.testBit_and, testBit_lnotL a ha]
+  by_cases hi : i < 64
+  · simp [hi]; cases a.testBit i <;> cases b.testBit i <;> rfl
+  · simp [hi, testBit_limb_high ha (by omega : 64 ≤ i)]
+
+theorem zipWith_congr_limbs (g g' : Nat → Nat → Nat) (h : ∀ a b, a < B → b < B → g a b = g' a b) :
+    ∀ (u v : List Nat), Limbs u → Limbs v → List.zipWith g u v = List.zipWith g' u v
+  | [], _, _, _ => by simp
+  | _ :: _, [], _, _ => by simp
+  | x :: xs, y :: ys, hu, hv => by
+    have ⟨hx, hxs⟩ := Limbs_cons.mp hu
+    have ⟨hy, hys⟩ := Limbs_cons.mp hv
+    simp only [List.zipWith_cons_cons, h x y hx hy, zipWith_congr_limbs g g' h xs ys hxs hys]
+
+theorem nand_n_eq (u v : List Nat) : nand_n u v = com_n (and_n u v) := by
+  unfold nand_n com_n and_n; rw [List.map_zipWith]
+theorem nior_n_eq (u v : List Nat) : nior_n u v = com_n (ior_n u v) := by
+  unfold nior_n com_n ior_n; rw [List.map_zipWith]
+theorem xnor_n_eq (u v : List Nat) : xnor_n u v = com_n (xor_n u v) := by
+  unfold xnor_n com_n xor_n; rw [List.map_zipWith]
+theorem iorn_n_eq (u v : List Nat) (hu : Limbs u) (hv : Limbs v) : iorn_n u v = com_n (andn_n v u) := by
+  unfold iorn_n com_n andn_n
+  rw [List.map_zipWith, zipWith_congr_limbs _ _ limb_iorn u v hu hv, List.zipWith_comm]
+theorem lnot_eq_neg (x : Int) : lnot x = -x - 1 := by
+  cases x with
+  | ofNat n => show Int.negSucc n = -(Int.ofNat n) - 1; rw [Int.negSucc_eq]; simp; omega
+  | negSucc n => show Int.ofNat n = -(Int.negSucc n) - 1; rw [Int.negSucc_eq]; simp
 
 end Mpir.Bits
